@@ -17,6 +17,7 @@ import (
 // elements of caller-supplied slices, results of unknown calls) is tainted.
 
 type tnt struct {
+	memberPred map[*ssa.Function]int
 	c          *Ctx
 	sanitizers map[string]bool
 	fnMemo     map[string]int // fn|idx -> 1 computing, 2 clean, 3 dirty
@@ -523,6 +524,12 @@ func (t *tnt) guardedConst(v ssa.Value, at *ssa.BasicBlock) bool {
 		if lk, ok := cond.(*ssa.Lookup); ok && truth && !lk.CommaOk && lk.Index == v && t.literalSet(lk.X) {
 			return true
 		}
+		// a predicate of the module that answers true only for members of a constant set (`isValidOperator(op)`)
+		if call, ok := cond.(*ssa.Call); ok && truth && len(call.Call.Args) == 1 && call.Call.Args[0] == v {
+			if sf := call.Call.StaticCallee(); sf != nil && t.membershipPredicate(sf) {
+				return true
+			}
+		}
 		return false
 	}
 	any := false
@@ -546,6 +553,93 @@ func (t *tnt) guardedConst(v ssa.Value, at *ssa.BasicBlock) bool {
 }
 
 func isConstVal(v ssa.Value) bool { _, ok := v.(*ssa.Const); return ok }
+
+// membershipPredicate: fn(s string) bool of the module returns anything other than constant false only on paths
+// that established s ∈ {constants}.
+func (t *tnt) membershipPredicate(fn *ssa.Function) bool {
+	if t.memberPred == nil {
+		t.memberPred = map[*ssa.Function]int{}
+	}
+	switch t.memberPred[fn] {
+	case 1:
+		return true
+	case 2:
+		return false
+	}
+	t.memberPred[fn] = 2
+	if fn.Pkg == nil || !strings.HasPrefix(fn.Pkg.Pkg.Path(), modPath) || len(fn.Params) != 1 || fn.Signature.Results().Len() != 1 || len(fn.Blocks) == 0 {
+		return false
+	}
+	if bt, ok := fn.Signature.Results().At(0).Type().Underlying().(*types.Basic); !ok || bt.Kind() != types.Bool {
+		return false
+	}
+	if bt, ok := fn.Params[0].Type().Underlying().(*types.Basic); !ok || bt.Kind() != types.String {
+		return false
+	}
+	ok, n := true, 0
+	eachInstr(fn, func(b *ssa.BasicBlock, _ int, ins ssa.Instruction) {
+		r, isRet := ins.(*ssa.Return)
+		if !isRet {
+			return
+		}
+		n++
+		var acceptable func(v ssa.Value, blk *ssa.BasicBlock, d int) bool
+		acceptable = func(v ssa.Value, blk *ssa.BasicBlock, d int) bool {
+			if d > 6 {
+				return false
+			}
+			if isConstBool(v, false) {
+				return true
+			}
+			switch x := v.(type) {
+			case *ssa.BinOp: // s == "c"
+				if x.Op == token.EQL && ((x.X == ssa.Value(fn.Params[0]) && isConstVal(x.Y)) || (x.Y == ssa.Value(fn.Params[0]) && isConstVal(x.X))) {
+					return true
+				}
+			case *ssa.Lookup: // literalSet[s]
+				if !x.CommaOk && x.Index == ssa.Value(fn.Params[0]) && t.literalSet(x.X) {
+					return true
+				}
+			case *ssa.Phi:
+				for i, e := range x.Edges {
+					pred := x.Block().Preds[i]
+					// a constant true carried by the edge on which `s == "c"` held
+					if isConstBool(e, true) {
+						if iff := ifOf(pred); iff != nil {
+							estab := false
+							for si, sb := range pred.Succs {
+								if sb != x.Block() || (len(pred.Succs) == 2 && pred.Succs[0] == pred.Succs[1]) {
+									continue
+								}
+								for _, f := range eqFacts(iff.Cond, si == 0) {
+									if (f.x == ssa.Value(fn.Params[0]) && isConstVal(f.y)) || (f.y == ssa.Value(fn.Params[0]) && isConstVal(f.x)) {
+										estab = true
+									}
+								}
+							}
+							if estab {
+								continue
+							}
+						}
+					}
+					if !acceptable(e, pred, d+1) {
+						return false
+					}
+				}
+				return true
+			}
+			return t.guardedConst(fn.Params[0], blk)
+		}
+		if !acceptable(retVals(r)[0], b, 0) {
+			ok = false
+		}
+	})
+	if ok && n > 0 {
+		t.memberPred[fn] = 1
+		return true
+	}
+	return false
+}
 
 // literalSet: m is a map whose key set is a compile-time literal.
 func (t *tnt) literalSet(m ssa.Value) bool {
